@@ -303,7 +303,7 @@ func otherPrin(t *rapid.T, label string, avoid ...int) int {
 
 // PrincipalDeviations lists the deviation kinds of C01.
 var PrincipalDeviations = []string{"rewire-aud", "rewire-iss", "subject-other", "subject-undef", "last-not-root",
-	"foreign-root", "root-in-audience", "swap", "duplicate", "truncate-root", "truncate-leaf", "missing", "loader-error",
+	"foreign-root", "foreign-root-suffix", "subject-other-run", "root-in-audience", "swap", "duplicate", "truncate-root", "truncate-leaf", "missing", "loader-error",
 	"empty", "wrong-invoker", "inv-subject-other"}
 
 // ApplyPrincipalDeviation mutates c in place with one labelled deviation at a drawn position.
@@ -351,6 +351,28 @@ func ApplyPrincipalDeviation(t *rapid.T, c *Case, kind string) {
 			c.Links[n-1].Iss = e
 		}
 		label = fmt.Sprintf("%s/%d", kind, n)
+	case "foreign-root-suffix":
+		// the last k links (k >= 1) are about, and rooted in, another principal E;
+		// the links nearer to the invoker still name the invocation's subject
+		if n == 0 {
+			return
+		}
+		e := otherPrin(t, "dev_p", c.Inv.Sub)
+		for i := pos; i < n; i++ {
+			c.Links[i].Sub = e
+		}
+		c.Links[n-1].Iss = e
+		label = fmt.Sprintf("%s@%d/%d", kind, pos, n)
+	case "subject-other-run":
+		if n == 0 {
+			return
+		}
+		e := otherPrin(t, "dev_p", c.Inv.Sub)
+		j := rapid.IntRange(pos, n-1).Draw(t, "devpos2")
+		for i := pos; i <= j; i++ {
+			c.Links[i].Sub = e
+		}
+		label = fmt.Sprintf("%s@%d-%d/%d", kind, pos, j, n)
 	case "root-in-audience":
 		e := otherPrin(t, "dev_p", c.Inv.Sub)
 		for i := range c.Links {
